@@ -18,3 +18,4 @@ import JaxVerif.Properties.C01
 #print axioms JV.C01_source_slices
 #print axioms JV.C01_source_rank_tests
 #print axioms JV.C01_source_slices_lists
+#print axioms JV.C01_source_arguments
